@@ -91,6 +91,29 @@ class Interp:
             self.ctx.assume(z3.InRe(t, smt.PRINTABLE))
         return SStr(t)
 
+    def alphabet(self, t):
+        """over-approximation (exact per declared pattern) of the characters a string term can contain, or None"""
+        if self.charsets is None:
+            return None
+        if z3.is_string_value(t):
+            return set(t.as_string())
+        if z3.is_const(t) and t.decl().name() in self.charsets:
+            return self.charsets[t.decl().name()]
+        if z3.is_app(t) and t.num_args() == 1 and (t.decl().eq(smt.UPPER) or t.decl().eq(smt.LOWER)):
+            inner = self.alphabet(t.arg(0))
+            if inner is None:
+                return None
+            return {(c.upper() if t.decl().eq(smt.UPPER) else c.lower()) for c in inner}
+        if z3.is_app(t) and t.decl().kind() == z3.Z3_OP_SEQ_CONCAT:
+            out = set()
+            for c in t.children():
+                a = self.alphabet(c)
+                if a is None:
+                    return None
+                out |= a
+            return out
+        return None
+
     def replace_over_concat(self, t, a, b):
         """replace_all(x1 ++ ... ++ xn, a, b) when no symbolic piece can contain any character of `a` (its declared
         alphabet is disjoint from a's characters): every occurrence of `a` then lies inside a run of literal
@@ -205,6 +228,12 @@ class Interp:
             return True
         if isinstance(a, SStr) or isinstance(b, SStr):
             if isinstance(a, (SStr, str)) and isinstance(b, (SStr, str)):
+                # a literal with a character outside the alphabet of the symbolic side cannot be equal to it (exact)
+                for sym, lit in ((a, b), (b, a)):
+                    if isinstance(sym, SStr) and isinstance(lit, str):
+                        alpha = self.alphabet(sym.t)
+                        if alpha is not None and any(c not in alpha for c in lit):
+                            return False
                 return SBool(strterm(a) == strterm(b))
             if isinstance(a, Opaque) or isinstance(b, Opaque):
                 raise Unsupported("== between string and opaque value")
@@ -990,6 +1019,11 @@ class Interp:
         return True
 
     def is_(self, a, b):
+        # re.match(...) is None  <=>  no match
+        if isinstance(a, ReMatch) and b is None:
+            return SBool(z3.Not(a.cond))
+        if isinstance(b, ReMatch) and a is None:
+            return SBool(z3.Not(b.cond))
         if isinstance(a, SBool) or isinstance(b, SBool):
             if isinstance(a, (bool, SBool)) and isinstance(b, (bool, SBool)):
                 return SBool(boolterm(a) == boolterm(b))
@@ -1206,6 +1240,12 @@ class Interp:
                 v = getattr(cls, name)
                 if not callable(v) or isinstance(v, type):
                     return self.import_const(v)
+            # an attribute the contract does not mention, on a parser object: its value right after construction
+            # (immutable values only: numbers, flags, None, strings, compiled patterns)
+            if cls is not None and not isinstance(cls, str) and cls.__name__ == "DDLParser":
+                dflt = _fresh_parser_attr(cls, name)
+                if dflt is not _MISSING:
+                    return dflt
             raise pyraise("AttributeError", name)
         if isinstance(o, ModRef):
             if o.name in self.prog.trees:
@@ -1666,6 +1706,10 @@ class Interp:
             raise Unsupported("method %s of split result" % m)
         if isinstance(o, (Sym, Obj, OSeq, PProd)):
             raise Unsupported("method %s on %s" % (m, type(o).__name__))
+        import re as _re
+        if isinstance(o, _re.Pattern) and m in ("match", "search", "fullmatch", "sub") and not o.flags & ~_re.UNICODE:
+            # compiled pattern: same as the module-level function with its pattern text
+            return self.call_external("re." + m, [o.pattern] + list(args), kwargs)
         # foreign concrete object: native call when every argument is concrete
         if any(self.has_sym(a) for a in args) or any(self.has_sym(a) for a in kwargs.values()):
             raise Unsupported("native method %s.%s with symbolic argument" % (type(o).__name__, m))
@@ -1709,7 +1753,7 @@ class Interp:
             # alphabet has no letter of the other case (exact)
             f = smt.UPPER if m == "upper" else smt.LOWER
             leaves = _concat_leaves(t)
-            if len(leaves) > 1 or self.charsets is not None:
+            if True:
                 out = []
                 for lf in leaves:
                     if z3.is_string_value(lf):
@@ -1717,8 +1761,14 @@ class Interp:
                     elif (self.charsets is not None and z3.is_const(lf) and lf.decl().name() in self.charsets
                           and not any((c.islower() if m == "upper" else c.isupper()) for c in self.charsets[lf.decl().name()])):
                         out.append(lf)
+                    elif z3.is_app(lf) and lf.decl().eq(f):
+                        out.append(lf)          # case mapping is idempotent
                     else:
                         out.append(f(lf))
+                        if z3.is_const(lf) and lf.decl().arity() == 0:
+                            # lemma (true of ASCII case mapping): length and printability are preserved
+                            self.ctx.assume(z3.Length(f(lf)) == z3.Length(lf))
+                            self.ctx.assume(z3.InRe(f(lf), smt.PRINTABLE))
                 r = z3.simplify(out[0] if len(out) == 1 else z3.Concat(*out))
                 return r.as_string() if z3.is_string_value(r) else SStr(r)
             return SStr(f(t))
@@ -1975,6 +2025,11 @@ class Interp:
             if is_sym(pat) or len(args) > 2 or kwargs:
                 raise Unsupported("re with symbolic pattern / flags")
             # anchors at the two ends of the whole pattern (strings never contain a newline here)
+            # a trailing \b after an alternation of plain words: the word is followed by the end of the text or a non-word character
+            word_end = False
+            import re as _re2
+            if isinstance(pat, str) and _re2.fullmatch(r"\^?\((\w+\|)*\w+\)\\b", pat):
+                pat, word_end = pat[:-2], True
             a_start = isinstance(pat, str) and pat.startswith("^")
             a_end = isinstance(pat, str) and pat.endswith("$") and not pat.endswith("\\$")
             core = pat[(1 if a_start else 0):(len(pat) - 1 if a_end else len(pat))]
@@ -1982,6 +2037,12 @@ class Interp:
                 raise Unsupported("regex anchor inside alternation")
             rx = regex_to_z3(core)
             anyc = z3.Star(z3.AllChar(z3.ReSort(smt.S)))
+            if word_end:
+                nonword = regex_to_z3(r"[^a-zA-Z0-9_]")
+                rx = z3.Concat(rx, z3.Union(z3.Re(""), z3.Concat(nonword, anyc)))
+                if name == "re.match":
+                    return ReMatch(z3.InRe(strterm(s), rx)) if not isinstance(s, str) else (getattr(_re2, "match")(pat + r"\b", s) is not None)
+                raise Unsupported("\\b outside re.match")
             if name == "re.match":
                 rx = rx if a_end else z3.Concat(rx, anyc)
             elif name == "re.search":
@@ -2012,6 +2073,26 @@ class Interp:
         if name == "json.dumps":
             return Opaque("json.dumps", args)
         raise Unsupported("external call %s" % name)
+
+
+_MISSING = object()
+_fresh_parser = {}
+
+
+def _fresh_parser_attr(cls, name):
+    import re as _re
+    if cls not in _fresh_parser:
+        try:
+            _fresh_parser[cls] = cls("")
+        except Exception:
+            _fresh_parser[cls] = None
+    p = _fresh_parser[cls]
+    if p is None or not hasattr(p, name):
+        return _MISSING
+    v = getattr(p, name)
+    if v is None or isinstance(v, (bool, int, str, _re.Pattern)):
+        return v
+    return _MISSING
 
 
 def _concat_leaves(t):
